@@ -52,6 +52,10 @@ class EFLRSetsDict(defaultdict):
                 # the set is new to this structure, but it is not empty: its items were added to another logical file
                 raise RuntimeError(f"{eflr_set} already holds objects of another logical file; "
                                    f"please specify a different 'set_name' for the objects of each logical file")
+            previous_set_dict = eflr_set._sets_of_logical_file
+            if previous_set_dict is not None and previous_set_dict.get(eflr_set.set_name) is eflr_set:
+                # the (empty) set was left with another logical file by a call which did not manage to add an item to it
+                del previous_set_dict[eflr_set.set_name]
             self[eflr_set.__class__][eflr_set.set_name] = eflr_set
             eflr_set._sets_of_logical_file = set_dict
             return True
